@@ -18,14 +18,25 @@
 (* concurrent.futures.wait.  An action = that operation plus the purely    *)
 (* thread-local code up to the next synchronisation point.                 *)
 (*                                                                         *)
-(* The model is deliberately faithful to the deviations of the code:       *)
-(*  - submit() tests the shutdown flag OUTSIDE the lock (S_Check/S_Lock)   *)
+(* The model follows the code as repaired by commit 929919f: submit()      *)
+(* tests the shutdown flag UNDER the executor lock (S_Lock, S_Check, then   *)
+(* S_AppendStart or S_Reject) and _join() takes its snapshot under the     *)
+(* lock (H_Lock, H_Snapshot, H_Unlock).  PreFix = TRUE re-introduces the   *)
+(* order of the code before the repair (flag tested outside the lock,      *)
+(* snapshot without the lock); it is used only as a negative control:      *)
+(* TLC must find the submit-shutdown-toctou counterexample there and the   *)
+(* real code must refuse to follow that schedule.                          *)
+(* The model is deliberately faithful to the remaining deviations:         *)
 (*  - cancel() is a no-op while self.process is still None (C_Begin)       *)
-(*  - _join() takes its snapshot without the lock and lets a job's         *)
-(*    exception escape from shutdown(wait=True) (H_Join -> "raised")       *)
+(*  - _join() lets a job's exception escape from shutdown(wait=True)       *)
+(*    (H_Join -> "raised")                                                 *)
+(*  - cancel() of shutdown closes the pipes while the worker may still be  *)
+(*    inside communicate(): the killed job surfaces as a tuple, as an      *)
+(*    OSError (W_CommBroken) or as TimeoutExpired (W_Timeout) -- all three *)
+(*    observed with real processes (harness/exec_real.py)                  *)
 (* The invariants that these deviations break are kept (they are expected  *)
-(* to FAIL, MC_Executor_races*.cfg) and split into the part that holds on  *)
-(* every interleaving (QuiescentUnlessRace, ...) and the race witnesses.   *)
+(* to FAIL, MC_Executor_race_*.cfg) and split into the part that holds on  *)
+(* every interleaving (QuiescentUnlessCbp, ...) and the race witnesses.    *)
 (***************************************************************************)
 EXTENDS Naturals, Sequences, FiniteSets, TLC
 
@@ -34,11 +45,12 @@ CONSTANTS
     HasTimeout,    \* jobs submitted with timeout # None
     IgnoresTerm,   \* jobs whose process survives SIGTERM (needs kill())
     PopenMayFail,  \* jobs whose Popen() may raise OSError
+    PreFix,        \* TRUE: the order of the code BEFORE commit 929919f (negative control only)
     CoarseCancel,  \* TRUE: the psutil part of cancel() (Process .. stream close) is ONE step (3-job configuration)
     Modes          \* subset of {"none", "nowait", "wait"}: shutdown call made by thread shut
 
 ASSUME /\ HasTimeout \subseteq Jobs /\ IgnoresTerm \subseteq Jobs /\ PopenMayFail \subseteq Jobs
-       /\ Modes \subseteq {"none", "nowait", "wait"} /\ Modes # {} /\ CoarseCancel \in BOOLEAN
+       /\ Modes \subseteq {"none", "nowait", "wait"} /\ Modes # {} /\ CoarseCancel \in BOOLEAN /\ PreFix \in BOOLEAN
 
 VARIABLES
     mode,       \* which shutdown call thread shut makes (fixed in Init)
@@ -76,7 +88,7 @@ L(k, j, a) == [k |-> k, j |-> j, a |-> a]
 SiteKind(s) == IF s = "w" THEN "wrk" ELSE "can"
 Range(f) == {f[i] : i \in DOMAIN f}
 
-SubPcs == {"idle", "checked", "rejected", "locked", "started", "waiting", "got"}
+SubPcs == {"idle", "locked", "checked", "rejecting", "rejected", "started", "waiting", "got"}
 WrkPcs == {"idle", "spawned", "communicating", "finally", "cancelling", "setresult", "done"}
 CanPcs == {"none", "begin", "poll", "ps", "term", "wait", "kill", "close", "done"}
 ShutPcs == {"idle", "flagged", "locked", "waitcancels", "unlock", "snapshot", "joining", "returned", "raised"}
@@ -110,24 +122,34 @@ Init ==
 -----------------------------------------------------------------------------
 (* sub j :  submit(future) ; future.result()                               *)
 
-\* `if self._shutdown.is_set(): raise ShutdownError()`   -- outside the lock
-S_Check(j) ==
-    /\ spc[j] = "idle"
-    /\ spc' = [spc EXCEPT ![j] = IF flag THEN "rejected" ELSE "checked"]
-    /\ act' = L("sub", j, "S_Check")
-    /\ UNCHANGED <<mode, flag, lock, futures, wpc, proc, exc, delivered, seen, hpc, snap, hidx, cpc, late, postret, early, sclosed>>
-
-\* `with self._lock:`  (acquire)
+\* `with self._lock:`  (acquire) -- the first thing submit() does
+\* (PreFix: acquired after the flag test)
 S_Lock(j) ==
-    /\ spc[j] = "checked" /\ lock = Free
+    /\ spc[j] = (IF PreFix THEN "checked" ELSE "idle") /\ lock = Free
     /\ lock' = <<"sub", j>>
     /\ spc' = [spc EXCEPT ![j] = "locked"]
     /\ act' = L("sub", j, "S_Lock")
     /\ UNCHANGED <<mode, flag, futures, wpc, proc, exc, delivered, seen, hpc, snap, hidx, cpc, late, postret, early, sclosed>>
 
+\* `if self._shutdown.is_set(): raise ShutdownError()`   -- under the lock
+\* (PreFix: outside the lock, first thing submit() does; a refusal then needs no unlock)
+S_Check(j) ==
+    /\ spc[j] = (IF PreFix THEN "idle" ELSE "locked")
+    /\ spc' = [spc EXCEPT ![j] = IF flag THEN (IF PreFix THEN "rejected" ELSE "rejecting") ELSE "checked"]
+    /\ act' = L("sub", j, "S_Check")
+    /\ UNCHANGED <<mode, flag, lock, futures, wpc, proc, exc, delivered, seen, hpc, snap, hidx, cpc, late, postret, early, sclosed>>
+
+\* the raise leaves `with self._lock:` (release); submit raises ShutdownError
+S_Reject(j) ==
+    /\ spc[j] = "rejecting"
+    /\ lock' = Free
+    /\ spc' = [spc EXCEPT ![j] = "rejected"]
+    /\ act' = L("sub", j, "S_Reject")
+    /\ UNCHANGED <<mode, flag, futures, wpc, proc, exc, delivered, seen, hpc, snap, hidx, cpc, late, postret, early, sclosed>>
+
 \* `self._futures.append(future); future.start()`  (Thread(...).start(): wrk j exists from now on)
 S_AppendStart(j) ==
-    /\ spc[j] = "locked"
+    /\ spc[j] = (IF PreFix THEN "locked" ELSE "checked")
     /\ futures' = Append(futures, j)
     /\ wpc' = [wpc EXCEPT ![j] = "spawned"]
     /\ spc' = [spc EXCEPT ![j] = "started"]
@@ -153,7 +175,7 @@ R_Result(j) ==
     /\ act' = L("sub", j, "R_Result")
     /\ UNCHANGED <<mode, flag, lock, futures, wpc, proc, exc, delivered, hpc, snap, hidx, cpc, late, postret, early, sclosed>>
 
-SubNext(j) == S_Check(j) \/ S_Lock(j) \/ S_AppendStart(j) \/ S_Unlock(j) \/ R_Result(j)
+SubNext(j) == S_Lock(j) \/ S_Check(j) \/ S_Reject(j) \/ S_AppendStart(j) \/ S_Unlock(j) \/ R_Result(j)
 
 -----------------------------------------------------------------------------
 (* cancel(): shared by wrk j (site "w", inline in `finally`) and can j (site "h")                     *)
@@ -320,11 +342,12 @@ WrkNext(j) ==
 H_SetFlag ==
     /\ hpc = "idle" /\ mode # "none"
     /\ flag' = TRUE
-    /\ hpc' = IF mode = "wait" THEN "snapshot" ELSE "flagged"
+    /\ hpc' = IF PreFix /\ mode = "wait" THEN "snapshot" ELSE "flagged"
     /\ act' = L("shut", "-", "H_SetFlag")
     /\ UNCHANGED <<mode, lock, futures, spc, wpc, proc, exc, delivered, seen, snap, hidx, cpc, late, postret, early, sclosed>>
 
 \* wait=False: `with self._lock, ThreadPoolExecutor() as executor:` (acquire)
+\* wait=True : `with self._lock:` of _join() (acquire)
 H_Lock ==
     /\ hpc = "flagged" /\ lock = Free
     /\ lock' = <<"shut">>
@@ -334,7 +357,7 @@ H_Lock ==
 
 \* `cancel_tasks = [executor.submit(f.cancel) for f in self._futures]`: one thread can j per registered job
 H_CancelAll ==
-    /\ hpc = "locked"
+    /\ hpc = "locked" /\ mode = "nowait"
     /\ cpc' = [x \in Sites \X Jobs |-> IF x[1] = "h" /\ x[2] \in Range(futures) THEN "begin" ELSE cpc[x]]
     /\ hpc' = "waitcancels"
     /\ act' = L("shut", "-", "H_CancelAll")
@@ -348,21 +371,22 @@ H_WaitCancels ==
     /\ act' = L("shut", "-", "H_WaitCancels")
     /\ UNCHANGED <<mode, flag, lock, futures, spc, wpc, proc, exc, delivered, seen, snap, hidx, cpc, late, postret, early, sclosed>>
 
-\* release of the lock; shutdown(wait=False) returns
+\* wait=True: `futures = list(self._futures)` in _join(), under the lock
+\* (PreFix: read WITHOUT the lock, directly after the flag was set)
+H_Snapshot ==
+    /\ hpc = (IF PreFix THEN "snapshot" ELSE "locked") /\ mode = "wait"
+    /\ snap' = futures /\ hidx' = 1
+    /\ hpc' = IF PreFix THEN (IF futures = <<>> THEN "returned" ELSE "joining") ELSE "unlock"
+    /\ act' = L("shut", "-", "H_Snapshot")
+    /\ UNCHANGED <<mode, flag, lock, futures, spc, wpc, proc, exc, delivered, seen, cpc, late, postret, early, sclosed>>
+
+\* release of the lock; wait=False: shutdown returns; wait=True: _join() starts waiting (or returns at once)
 H_Unlock ==
     /\ hpc = "unlock"
     /\ lock' = Free
-    /\ hpc' = "returned"
+    /\ hpc' = IF mode = "nowait" \/ snap = <<>> THEN "returned" ELSE "joining"
     /\ act' = L("shut", "-", "H_Unlock")
     /\ UNCHANGED <<mode, flag, futures, spc, wpc, proc, exc, delivered, seen, snap, hidx, cpc, late, postret, early, sclosed>>
-
-\* wait=True: `list(self._futures)` in _join() -- read WITHOUT the lock
-H_Snapshot ==
-    /\ hpc = "snapshot"
-    /\ snap' = futures /\ hidx' = 1
-    /\ hpc' = IF futures = <<>> THEN "returned" ELSE "joining"
-    /\ act' = L("shut", "-", "H_Snapshot")
-    /\ UNCHANGED <<mode, flag, lock, futures, spc, wpc, proc, exc, delivered, seen, cpc, late, postret, early, sclosed>>
 
 \* `future.result()` of the hidx-th snapshot entry; a stored exception is re-raised and leaves shutdown()
 \* (only CancelledError is suppressed), the remaining futures are then NOT waited for.
@@ -439,12 +463,20 @@ TimeoutIsUnknown ==
 \* the stored exception is never overwritten or cleared
 ExcStable == [][\A j \in Jobs : exc[j] # "none" => exc'[j] = exc[j]]_vars
 
-\* a submit that starts after the flag was set is rejected (the sequential part of NoAcceptAfterShutdown)
-RejectAfterFlag == [][\A j \in Jobs : (flag /\ spc[j] = "idle" /\ spc'[j] # "idle") => spc'[j] = "rejected"]_vars
+\* a submit whose flag test sees the flag set is refused (with FlagStable: every submit that starts after
+\* shutdown() set the flag is refused -- the sequential part of NoAcceptAfterShutdown)
+RejectAfterFlag ==
+    [][\A j \in Jobs : (flag /\ spc[j] = (IF PreFix THEN "idle" ELSE "locked") /\ spc'[j] # spc[j])
+                          => spc'[j] \in {"rejecting", "rejected"}]_vars
+FlagStable == [][flag => flag']_vars
 
-\* every job registered when shutdown(wait=False) collects its cancel tasks gets one
+\* every job that is ever registered is covered by the shutdown: it has a cancel task (wait=False) or is in
+\* the snapshot of _join() (wait=True) -- nothing is registered behind shutdown's back
 CancelCoversRegistered ==
-    hpc \in {"waitcancels", "unlock"} => \A j \in Range(futures) : cpc[<<"h", j>>] # "none"
+    (mode = "nowait" /\ hpc \in {"waitcancels", "unlock", "returned"})
+        => \A j \in Range(futures) : cpc[<<"h", j>>] # "none"
+SnapshotCoversRegistered ==
+    (mode = "wait" /\ hpc \in {"unlock", "joining", "returned", "raised"}) => snap = futures
 
 \* cancel() of shutdown closes the pipes only when the process is gone
 ClosedMeansDead == \A j \in Jobs : sclosed[j] => proc[j] \in {"exited", "killed"}
@@ -453,29 +485,35 @@ Running(j) == proc[j] = "running"
 ReturnedNoWait == mode = "nowait" /\ hpc = "returned"
 
 \* QuiescentAfterShutdown restricted to what the code achieves: after shutdown(wait=False) returned, a
-\* process can only be (or become) running through one of the two races
-QuiescentUnlessRace ==
-    ReturnedNoWait => \A j \in Jobs : (Running(j) \/ wpc[j] = "spawned") => (late[j] \/ early[j])
-\* after shutdown(wait=False) returned, a job can only be accepted if its flag test preceded H_SetFlag
-AcceptOnlyByToctou == \A j \in Jobs : postret[j] => late[j]
+\* process can only be (or become) running through the cancel-before-popen race
+QuiescentUnlessCbp ==
+    ReturnedNoWait => \A j \in Jobs : (Running(j) \/ wpc[j] = "spawned") => early[j]
+\* ... and only for a job that was registered before shutdown took the lock (it did get its cancel task)
+CbpOnlyRegistered == \A j \in Jobs : early[j] => cpc[<<"h", j>>] = "done"
 \* shutdown(wait=True) that returns normally has seen every snapshot job delivered
 JoinCoversSnapshot ==
     (mode = "wait" /\ hpc = "returned") => \A i \in 1..Len(snap) : delivered[snap[i]] = 1 /\ ~Running(snap[i])
 
 -----------------------------------------------------------------------------
-(* The property as stated -- these FAIL on the model because the code admits the interleaving         *)
-(* (MC_Executor_races.cfg, expect_violation).                                                         *)
+(* The property as stated.  After commit 929919f:                                                      *)
+(*   NoAcceptAfterShutdown, QuiescentAfterReturnedWait       HOLD (main configurations)                *)
+(*   QuiescentAfterShutdown      FAILS, only through cancel-before-popen (QuiescentUnlessCbp holds)    *)
+(*   QuiescentAfterShutdownWait  FAILS, only when _join() raised (join-raises-job-exception)           *)
+(* With PreFix = TRUE all of them fail through submit-shutdown-toctou (negative control).             *)
 
 \* once shutdown(wait=False) has returned no process is or becomes running
 QuiescentAfterShutdown == ReturnedNoWait => \A j \in Jobs : ~Running(j)
 \* after shutdown returned no further job is accepted
 NoAcceptAfterShutdown == \A j \in Jobs : ~postret[j]
-\* shutdown(wait=True) returns only when nothing is running any more, and does not raise
+\* shutdown(wait=True) ends only when nothing is running any more ...
 QuiescentAfterShutdownWait == (mode = "wait" /\ ShutDone) => \A j \in Jobs : ~Running(j)
+\* ... which the code achieves when it returns normally
+QuiescentAfterReturnedWait == (mode = "wait" /\ hpc = "returned") => \A j \in Jobs : ~Running(j) /\ wpc[j] # "spawned"
 ShutdownWaitDoesNotRaise == hpc # "raised"
 
 \* race witnesses (each must be reachable: checked as expected invariant violations)
 NoToctouWitness == ~(ReturnedNoWait /\ \E j \in Jobs : Running(j) /\ postret[j])
-NoCancelBeforePopenWitness == ~(ReturnedNoWait /\ \E j \in Jobs : Running(j) /\ early[j] /\ ~late[j])
-NoJoinRaiseWitness == ~(hpc = "raised" /\ \E j \in Jobs : Running(j) /\ ~late[j])
+NoToctouWaitWitness == ~(mode = "wait" /\ hpc = "returned" /\ \E j \in Jobs : Running(j) /\ postret[j])
+NoCancelBeforePopenWitness == ~(ReturnedNoWait /\ \E j \in Jobs : Running(j) /\ early[j])
+NoJoinRaiseWitness == ~(hpc = "raised" /\ \E j \in Jobs : Running(j))
 =============================================================================
